@@ -60,7 +60,10 @@ func recNum(s *obiseq.BioSequence) int {
 }
 
 func mkRec(n int) *obiseq.BioSequence {
-	l := 3 + n%7
+	l := 3 + 2*n // StreamCases.FragLens
+	if n > 64 {
+		l = 3 + n%7
+	}
 	b := make([]byte, l)
 	for i := range b {
 		b[i] = "acgt"[(i+n)%4]
@@ -182,7 +185,9 @@ func runStreamCase(env *Env, c streamCase) {
 	}
 	var want []outBatch
 	var want2 [][]outBatch
-	if c.Op == "divide" || c.Op == "distribute" {
+	if c.Op == "fragments" {
+		// decoded in its own branch
+	} else if c.Op == "divide" || c.Op == "distribute" {
 		if err := json.Unmarshal(c.Out, &want2); err != nil {
 			panic(err)
 		}
@@ -291,6 +296,70 @@ func runStreamCase(env *Env, c streamCase) {
 			}
 			check(fmt.Sprintf("Distribute(class %d)", k), g, oks[k], want2[k])
 		}
+	case "fragments":
+		var wantf []struct {
+			O     int     `json:"o"`
+			Items [][]int `json:"items"`
+		}
+		if err := json.Unmarshal(c.Out, &wantf); err != nil {
+			panic(err)
+		}
+		for w := 1; w <= 3; w++ {
+			it := obiiter.IFragments(6, 5, 2, c.Size, w)(source(batchesOf(c.Sizes, 0), c.Arrival))
+			res := [][]string{}
+			done := make(chan struct{})
+			go func() {
+				for it.Next() {
+					b := it.Get()
+					ids := []string{fmt.Sprint(b.Order())}
+					for _, s := range b.Slice() {
+						// "rN" or "rN_sub[a..b]" -> record, 0-based from, exclusive to
+						var r, a, e int
+						if n, _ := fmt.Sscanf(s.Id(), "r%d_sub[%d..%d]", &r, &a, &e); n == 3 {
+							a--
+						} else {
+							fmt.Sscanf(s.Id(), "r%d", &r)
+							a, e = 0, s.Len()
+						}
+						ids = append(ids, fmt.Sprintf("r%d[%d,%d):%d", r, a, e, s.Len()))
+					}
+					res = append(res, ids)
+				}
+				close(done)
+			}()
+			if !waitTimeout(done, streamPatience) {
+				env.fail("C03.fragments.hang", cl, "IFragments output never closed", c)
+				break
+			}
+			exp := [][]string{}
+			for _, b := range wantf {
+				ids := []string{fmt.Sprint(b.O)}
+				for _, f := range b.Items {
+					ids = append(ids, fmt.Sprintf("r%d[%d,%d):%d", f[0], f[1], f[2], f[2]-f[1]))
+				}
+				exp = append(exp, ids)
+			}
+			if fmt.Sprint(res) != fmt.Sprint(exp) {
+				env.fail("C03.fragments.output", cl, fmt.Sprintf("IFragments(%d workers) delivered %v, specification requires %v", w, res, exp), c)
+			}
+		}
+	case "merge":
+		it := source(in1, c.Arrival).IMergeSequenceBatch("NA", nil, c.Size)
+		got := []outBatch{}
+		done := make(chan struct{})
+		go func() {
+			for it.Next() {
+				b := it.Get()
+				ob := outBatch{O: b.Order(), Items: []int{}}
+				for _, s := range b.Slice() {
+					ob.Items = append(ob.Items, s.Count())
+				}
+				got = append(got, ob)
+			}
+			close(done)
+		}()
+		ok := waitTimeout(done, streamPatience)
+		check("IMergeSequenceBatch", got, ok, want)
 	case "sched":
 		runSchedCase(env, c, want)
 	default:
